@@ -18,7 +18,8 @@ from . import ctl, net
 PROP = "C05"
 LEVEL = "proof"
 ASSUMPTIONS = [
-    "PARTIAL: the step theorems (fault trips breakers; breaker closes only when timer<=0, own line healthy and not in a failed section; section disconnect takes own lines out; opening operations never energise) are proved for all configurations; the two state invariants over ALL reachable states are stated in Lean but not proved - they are tested on every state visited by the model and by the implementation in this run",
+    "the first state invariant (no failed line in service behind a closed breaker) is PROVED for every reachable state of every well-formed configuration of the manual switching model (C05.isolated_invariant); well-formedness (wfB) and the inductive invariant (invJ) are evaluated by the driver on every configuration extracted from a real system and on every visited state, and the check fails if either is ever false",
+    "PARTIAL: the second state invariant (switch positions agree with line status) is stated in Lean but not proved - it is tested on every state visited by the model and by the implementation in this run",
     "the automatic (ICT) control path is exercised by the oracle only (no Lean model of sensors / intelligent switches in the control loop)",
     "a fault injected through the callback with repair time <= dt is repaired before the first control step (update_fail_status runs between callback and control loop); the 'breaker stays open for the sectioning time' clause is evaluated for faults still present at their first control step",
     "backup lines are outside the switching model (never faulted in these scenarios; closed/opened by island formation, see C04)",
